@@ -539,7 +539,7 @@ def rule_case_files(all_rules, max_nodes_per_file=40000):
     chunked('fold', '', items, '(fun c : qexpr * option qexpr => oeqb (qfold1 (fst c)) (snd c))', 'qexpr * option qexpr')
 
     items = []
-    for (key, dout, kinds) in all_rules['dx']:
+    for (key, dout, kinds, fctx) in all_rules['dx']:
         din, k, times, par = key
         try:
             names = {t[1] for t in subtrees(din, []) if t[0] == 'VR'}
@@ -553,7 +553,7 @@ def rule_case_files(all_rules, max_nodes_per_file=40000):
                           tree_size(din) + tree_size(dout) + 5,
                           {'rule': '_dx_impl', 'in': to_sexp(din), 'k': k, 'times': times, 'parametric': par,
                            'out': dout if isinstance(dout, str) else to_sexp(dout), '_in': din, '_out': dout,
-                           '_kinds': {n: kinds.get(n) for n in names}}))
+                           '_kinds': {n: kinds.get(n) for n in names}, '_fctx': fctx}))
         except Skip:
             pass
     chunked('dx', '''Definition dx_ok (c : (string -> vkind) * nat * nat * bool * qexpr * res Qc) : bool :=
@@ -717,6 +717,119 @@ def convention_expected():
     out += [('grad(f, parametric=True)[1]', F_(unit(1), True)), ('Dx(f, 2, 2, parametric=True)', F_([0, 0, 2], True)),
             ('as_vector([f, f]).dx(0)[1]', F_(unit(0)))]
     return out
+
+
+SHAPE_SETUP = ("V = VForm(3)\nA = V.parameter('A', shape=(3, 3))\nB = V.parameter('B', shape=(3, 3))\n"
+               "x = V.parameter('x', shape=(3,))\ny = V.parameter('y', shape=(3,))\n")
+
+
+def shape_specs():
+    """operator expansions for ALL shape combinations up to 3 (rectangular factors included):
+    m x k @ k x n, m x k @ k, outer m n, transpose / inner of m x n"""
+    specs = []
+    for m in (1, 2, 3):
+        for k in (1, 2, 3):
+            for n in (1, 2, 3):
+                specs.append({'code': SHAPE_SETUP + 'R = [dot(A[:%d, :%d], B[:%d, :%d])[i, j] for i in range(%d) for j in range(%d)]'
+                              % (m, k, k, n, m, n), 'shape': ('matmat', m, k, n)})
+            specs.append({'code': SHAPE_SETUP + 'R = [dot(A[:%d, :%d], x[:%d])[i] for i in range(%d)]' % (m, k, k, m),
+                          'shape': ('matvec', m, k)})
+            specs.append({'code': SHAPE_SETUP + ('R = [outer(x[:%d], y[:%d])[i, j] for i in range(%d) for j in range(%d)]'
+                                                  ' + [A[:%d, :%d].T[j, i] for i in range(%d) for j in range(%d)]'
+                                                  ' + [inner(A[:%d, :%d], B[:%d, :%d])]') % (m, k, m, k, m, k, m, k, m, k, m, k),
+                          'shape': ('outer_T_inner', m, k)})
+    return specs
+
+
+def shape_expected(tag):
+    """[(name, coq field expression, python function of the leaf values)] in the order of R"""
+    A = lambda i, j: 'a%d%d' % (i, j)
+    Bm = lambda i, j: 'b%d%d' % (i, j)
+    out = []
+    if tag[0] == 'matmat':
+        _, m, k, n = tag
+        for i in range(m):
+            for j in range(n):
+                out.append(('matmat_%d%d%d_%d%d' % (m, k, n, i, j), ' + '.join('%s * %s' % (A(i, q), Bm(q, j)) for q in range(k)),
+                            (lambda i=i, j=j: lambda a, b, x, y: sum((a(i, q) * b(q, j) for q in range(k)), Fraction(0)))()))
+    elif tag[0] == 'matvec':
+        _, m, k = tag
+        for i in range(m):
+            out.append(('matvec_%d%d_%d' % (m, k, i), ' + '.join('%s * x%d' % (A(i, q), q) for q in range(k)),
+                        (lambda i=i: lambda a, b, x, y: sum((a(i, q) * x(q) for q in range(k)), Fraction(0)))()))
+    else:
+        _, m, n = tag
+        for i in range(m):
+            for j in range(n):
+                out.append(('outer_%d%d_%d%d' % (m, n, i, j), 'x%d * y%d' % (i, j), (lambda i=i, j=j: lambda a, b, x, y: x(i) * y(j))()))
+        for i in range(m):
+            for j in range(n):
+                out.append(('transpose_%d%d_%d%d' % (m, n, i, j), A(i, j), (lambda i=i, j=j: lambda a, b, x, y: a(i, j))()))
+        out.append(('inner_%d%d' % (m, n), ' + '.join('%s * %s' % (A(i, j), Bm(i, j)) for i in range(m) for j in range(n)),
+                    lambda a, b, x, y: sum((a(i, j) * b(i, j) for i in range(m) for j in range(n)), Fraction(0))))
+    return out
+
+
+def shape_checks(ctx, specs, results):
+    """(1) exact search: evaluate every returned entry in random rational leaf values against the dense
+    definition; (2) one generated Coq file proving all identities by ring over an arbitrary field."""
+    vs = ['a%d%d' % (i, j) for i in range(3) for j in range(3)] + ['b%d%d' % (i, j) for i in range(3) for j in range(3)] + \
+         ['x%d' % i for i in range(3)] + ['y%d' % i for i in range(3)]
+    vrs = ['(vr_key "A" [%d;%d] [0;0;0] false, a%d%d)' % (i, j, i, j) for i in range(3) for j in range(3)] + \
+          ['(vr_key "B" [%d;%d] [0;0;0] false, b%d%d)' % (i, j, i, j) for i in range(3) for j in range(3)] + \
+          ['(vr_key "x" [%d] [0;0;0] false, x%d)' % (i, i) for i in range(3)] + \
+          ['(vr_key "y" [%d] [0;0;0] false, y%d)' % (i, i) for i in range(3)]
+    body = OPS_HEADER + 'Variables %s : F.\n' % ' '.join(vs)
+    body += 'Definition en := env_of F f0 [] [%s] [] f0 f0 (fun _ x => x).\n' % '; '.join(vrs)
+    ngoals = 0
+    nvals = 0
+    for spec, res in zip(specs, results):
+        tag = spec['shape']
+        call = spec['code'].splitlines()[-1]
+        if res['status'] != 'Ok':
+            ctx.report('impl:operator-expansion:raises:%s' % tag[0],
+                       'a product/transpose/inner of admissible shapes %s raises %s (%s)' % (tag[1:], res['status'], res.get('msg')),
+                       {'code': spec['code'], 'shapes': list(tag[1:]), 'status': res['status']})
+            continue
+        exp = shape_expected(tag)
+        if len(exp) != len(res['R']):
+            ctx.broken.append('shape probe %s returned %d entries, expected %d' % (tag, len(res['R']), len(exp)))
+            continue
+        for s_ in range(2):
+            le = LeafEnv('shape-%d' % s_)
+            z = (0, 0, 0)
+            a = lambda i, j: le.rnd(('VR', 'A', (i, j), z))
+            b = lambda i, j: le.rnd(('VR', 'B', (i, j), z))
+            x = lambda i: le.rnd(('VR', 'x', (i,), z))
+            y = lambda i: le.rnd(('VR', 'y', (i,), z))
+            for (nm, _, fn), got in zip(exp, res['R']):
+                want, have = fn(a, b, x, y), le.ev(got)
+                nvals += 1
+                if want != have:
+                    ctx.report('impl:operator-expansion:%s' % tag[0],
+                               'entry %s of the expansion for shapes %s has the value %s, the dense definition gives %s: %s' % (
+                                   nm, tag[1:], have, want, to_sexp(got)[:400]),
+                               {'code': spec['code'], 'call': call, 'entry': nm, 'shapes': list(tag[1:]),
+                                'leaf_values': 'A[i,j], B[i,j], x[i], y[i] = LeafEnv("shape-%d")' % s_,
+                                'expansion': to_sexp(got)[:1500]})
+                    break
+        try:
+            for (nm, rhs, _), got in zip(exp, res['R']):
+                body += 'Lemma %s : eval en %s = %s.\nProof. red_eval. ring. Qed.\n' % (nm, cexprF(got), rhs)
+                ngoals += 1
+        except Skip as ex:
+            ctx.broken.append('shape probe %s cannot be translated: %s' % (tag, ex))
+    body += 'End Ops.\n'
+    ok, out = ctx.gen_obligation('C06_ops_shapes', body, timeout=900)
+    if ok:
+        ctx.trusted.append('C06_ops_shapes: %d identities (MatMat m x k @ k x n, MatVec, outer, transpose, inner for all shapes <= 3, '
+                           'rectangular factors included) about the implementation\'s expansions -- proved (ring)' % ngoals)
+    else:
+        ctx.broken.append('generated obligation C06_ops_shapes no longer proves: ' + out[-400:])
+        ctx.report('obligation:C06_ops_shapes', 'an operator expansion identity for some shape combination is no longer provable',
+                   {'coq': out[-600:]}, found_input=False)
+    ctx.cov['shape_probe_values'] = nvals
+    return ngoals
 
 
 def fexpr_sum(terms):
@@ -973,7 +1086,9 @@ def run(ctx):
     ospecs = ops_specs()
     if not thorough:
         ospecs = [s for s in ospecs if not (s['ops'][0] == 'hess' and s['ops'][1] == 3)]
-    ores = run_driver(ctx, ospecs, batch=8, max_nodes=60000, rules=False)
+    sspecs = shape_specs()
+    allres = run_driver(ctx, ospecs + sspecs, batch=20, max_nodes=60000, rules=False)
+    ores, sres = allres[:len(ospecs)], allres[len(ospecs):]
     ofiles = ops_obligations(ospecs, ores)
     todo = [(n, t) for (n, t, w) in ofiles if t is not None]
     results = {n: (ok, out) for (n, ok, out) in ctx.coq_eval_many(todo, timeout=1500)}
@@ -989,6 +1104,10 @@ def run(ctx):
             ctx.broken.append('generated obligation %s no longer proves (%s): %s' % (n, w, why))
     ctx.checker_cmds.append('cd coq && coqc -R . Verif gen/C06_ops_*.v')
     log('[C06] generated obligations: %d files, %d failed (t=%.0fs)' % (len(ofiles), len(ops_failed), time.time() - ctx.t0))
+
+    # ---- operator expansions for every shape combination (rectangular factors) ------------------
+    ng = shape_checks(ctx, sspecs, sres)
+    log('[C06] shape probes: %d specs, %d identities (t=%.0fs)' % (len(sspecs), ng, time.time() - ctx.t0))
 
     # ---- index conventions of grad / curl / div / hess (exact structural comparison) ----------
     cres = run_driver(ctx, [{'code': CONV_CODE}], rules=False)[0]
@@ -1063,7 +1182,7 @@ def run(ctx):
                 key = 'dx' + json.dumps(rec[0])
                 if key not in seen_rule:
                     seen_rule.add(key)
-                    all_rules['dx'].append((rec[0], rec[1], kinds))
+                    all_rules['dx'].append((rec[0], rec[1], kinds, (res['header'], res['snaps'][-1][1]['vars'])))
         if st != 'Ok' or 'snaps' not in res:
             continue
         todo.append((k, spec, res))
@@ -1150,8 +1269,15 @@ def run(ctx):
     ctx.cov['coq_cases'] = dict(ncases)
     ctx.cov['disagreements_checked'] = len(disagreements)
     log('[C06] Coq case files: %d (%s), disagreements %d' % (len(files), dict(ncases), len(disagreements)))
+    # a rule changed: is the new rule still value preserving?  search EVERY disagreeing record for an
+    # environment in which input and output differ, and report those with a concrete failing input first
+    searched = []
+    for kind, desc in disagreements[:600]:
+        bad = rule_value_changed(desc) if kind != 'eval' else None
+        searched.append((0 if bad else 1, kind, desc, bad))
+    searched.sort(key=lambda t: t[0])
     byk = collections.Counter()
-    for kind, desc in disagreements:
+    for _, kind, desc, bad in searched:
         byk[kind] += 1
         if byk[kind] > 3:
             continue
@@ -1160,8 +1286,6 @@ def run(ctx):
             ctx.report('tie:eval', 'the Coq evaluator / schedule checker disagrees with the oracle value or rejects the emitted order '
                        'for a form whose passes preserved the value', desc, found_input=False)
         else:
-            # a rule changed: is the new rule still value preserving?  evaluate in/out with the oracle
-            bad = rule_value_changed(desc)
             desc = {k: v for k, v in desc.items() if not k.startswith('_')}
             if bad:
                 desc['environment'] = bad
@@ -1246,6 +1370,49 @@ class LeafEnv:
         raise ev.Unsupported(k)
 
 
+def dx_jets_search(desc, s):
+    """value of Dx(e, k, parametric) by dual numbers whose leaf derivatives are the form's jets (physical
+    or parametric as requested) vs. the value of the returned expression in the same environment"""
+    hdr, vars_ = desc['_fctx']
+    din, dout, kax, par = desc['_in'], desc['_out'], desc['k'], desc['parametric']
+    env = ev.Env(hdr, 'dxjets-%d' % s)
+    fo = ev.Forest({'vars': vars_, 'exprs': []}, env)
+    bump = lambda D: [d + (1 if i == kax else 0) for i, d in enumerate(D)]
+
+    def dual(e):
+        k = e[0]
+        if k == 'C':
+            return Fraction(e[1], e[2]), Fraction(0)
+        if k == 'PD':
+            return fo.ev(e), fo.ev(['PD', e[1], e[2], bump(e[3]), not par])
+        if k == 'VR':
+            v = fo.vars.get(e[1])
+            if v is None or v['kind'] == 'expr':
+                raise ev.Unsupported('variable definition')
+            if v['kind'] == 'param':
+                return fo.ev(e), Fraction(0)
+            return fo.ev(e), fo.ev(['VR', e[1], e[2], bump(e[3]), par])
+        if k == 'O':
+            (a, da), (b, db) = dual(e[2]), dual(e[3])
+            if e[1] == '+':
+                return a + b, da + db
+            if e[1] == '-':
+                return a - b, da - db
+            if e[1] == '*':
+                return a * b, da * b + a * db
+            if b == 0:
+                raise ev.Undefined('zero')
+            return a / b, (da * b - a * db) / (b * b)
+        raise ev.Unsupported(k)
+    want = dual(din)[1]
+    have = fo.ev(dout)
+    if want != have:
+        return {'seed': env.seed, 'semantics': 'jets of the form: parametric jets are the composition of the physical jets with '
+                'the geometry 2-jet (harness/props/c06_eval.py)', 'input_value': str(want)[:200], 'output_value': str(have)[:200],
+                'dim': hdr['dim'], 'geo_dim': hdr['geo_dim']}
+    return None
+
+
 def rule_value_changed(desc):
     """search for an environment in which the rule's output has a different value than its input
     (fold_constants, _to_literal_vec_mat) resp. than the dual-number derivative of its input (_dx_impl)"""
@@ -1261,6 +1428,12 @@ def rule_value_changed(desc):
                 if desc['times'] != 1:
                     return None
                 a, b = le.dual(din, desc['k'], desc.get('_kinds', {}))[1], le.ev(dout)
+                if a == b and desc.get('_fctx'):
+                    # same value when physical and parametric derivatives are not distinguished: evaluate with
+                    # the jets semantics of the form (parametric jets = composition with a non-identity Jacobian)
+                    r2 = dx_jets_search(desc, s)
+                    if r2:
+                        return r2
             else:
                 f = ev.Forest({'vars': [], 'exprs': []}, None)
                 f.ev = le.ev
